@@ -235,7 +235,7 @@ def _consume_moves(F, g):
         gets = list(h.calls_to("std::cell::Cell::get"))
         repl = [t for b, t in h.calls_to("std::cell::Cell::replace", "std::mem::replace") if len(t["args"]) > 1 and (op_const(t["args"][1]) or 0) < 0]
         return (bool(sets) and bool(gets)) or bool(repl)
-    return "std::option::Option::take" in names or "std::mem::take" in names or "std::mem::replace" in names
+    return bool({"std::option::Option::take", "std::mem::take", "std::mem::replace", "std::cell::RefCell::take", "std::cell::RefCell::replace", "std::cell::Cell::take"} & names)
 
 
 def rule_rewrap(ctx, cfg, F):
@@ -1278,6 +1278,14 @@ def rule_shm_inproc(ctx, cfg, F):
                         dl = _root_local(f, tr, d)
                         pl = tr.roots_of_operand(p)
                         ok = any(r.kind == "call" and r.id in ("std::sync::Arc::get_mut",) or r.kind == "local" for r in pl) and "std::sync::Arc::get_mut" in chain_calls(f, p)
+                        if not ok:
+                            # `let mut v = ..; ptr: v.as_mut_ptr(); data: Arc::new(v)`: the pointer is taken from the very vector that is moved into the Arc
+                            pv = {(r.kind, r.id, r.block) for r in pl if r.kind == "call"}
+                            dv = set()
+                            for r in tr.roots_of_operand(d):
+                                if r.kind == "call" and r.id == "std::sync::Arc::new" and r.block is not None:
+                                    dv |= {(x.kind, x.id, x.block) for x in tr.roots_of_operand(f.term(r.block)["args"][0]) if x.kind == "call"}
+                            ok = bool(pv) and pv == dv and any(nm_ in chain_calls(f, p) for nm_ in ("std::vec::Vec::as_mut_ptr", "std::vec::Vec::as_ptr"))
                     if ok:
                         R.ok("%s couples ptr/length with the stored Arc" % f.path, f.loc(b, si), cfg)
                     else:
